@@ -51,6 +51,7 @@ var dbTable = []struct {
 	{"blsd", "bbolt", true, "p"},
 	{"bdgr", "badger", false, "p"},
 	{"fstr", "fstree", false, "p"},
+	{"fsfz", "fstree", false, "p"}, // fstree for the implementation-only fuzz stream: keys with '/' leave directories behind, which changes what a later prefix query walks
 	{"sink", "sinkhole", false, "s"},
 }
 
